@@ -120,8 +120,6 @@ def run(ck):
     ]
     ck.coq_props()
     run_cursor(ck)
-    try:
-        from checks import sqltext
-        sqltext.run_for(ck, "C17")
-    except ImportError:
-        pass
+    from checks import sqltext
+    if hasattr(sqltext, "run_promsel"):
+        sqltext.run_promsel(ck)
